@@ -53,6 +53,19 @@ def pkguse(x, acc):
     return acc
 
 
+def qualtypes(x, acc):
+    """names of package-qualified types (time.Time) mentioned anywhere"""
+    if isinstance(x, dict):
+        if x.get("k") == "named" and "." in x.get("n", ""):
+            acc.add(x["n"])
+        for v in x.values():
+            qualtypes(v, acc)
+    elif isinstance(x, list):
+        for v in x:
+            qualtypes(v, acc)
+    return acc
+
+
 def go_record(name, go_text, expect=None, extra=None):
     """Returns (record, None) or (None, syntax_error_message)."""
     try:
@@ -62,7 +75,7 @@ def go_record(name, go_text, expect=None, extra=None):
     except RecursionError:
         return None, "parser recursion limit"
     rec = {"name": name, "ast": ast, "expect": list(expect) if expect is not None else [], "hasexpect": expect is not None,
-           "pkguse": sorted(pkguse(ast, set()))}
+           "pkguse": sorted(pkguse(ast, set())), "qualtypes": sorted(qualtypes(ast, set()))}
     if extra:
         rec.update(extra)
     return rec, None
